@@ -1,7 +1,7 @@
 (* Properties_C08.v -- C08: vi operators, inserts, puts and registers.
    Statements only; every proof is `exact <lemma>`; Print Assumptions under each. *)
-From Coq Require Import List NArith ZArith.
-From NV Require Import Bytes UcDefs RegDefs RegProps.
+From Coq Require Import List NArith ZArith Bool.
+From NV Require Import Bytes UcDefs UcSpec MotDefs MotProps RegDefs RegProps ViDefs ViProps.
 Import ListNotations.
 Local Open Scope N_scope.
 
@@ -34,6 +34,70 @@ Theorem C08_registers_frame : forall R c s ln x, x <> c_tolower c ->
   (rot_cond c s ln = true -> ~ (49 <= x <= 57)) -> reg_put R c s ln x = R x.
 Proof. exact put_frame. Qed.
 Print Assumptions C08_registers_frame.
+
+(* ---------- C08_region: the region vc_motion hands to the operator ---------- *)
+Local Open Scope Z_scope.
+(* rows are ordered (r1 <= r2 = the cursor row and the target row) and the region is line-wise
+   exactly when the motion is a line motion (target offset < 0) *)
+Theorem C08_region_rows : forall b k r1 o1 r2 o2, let g := vc_region b k r1 o1 r2 o2 in
+  g_r1 g = Z.min r1 r2 /\ g_r2 g = Z.max r1 r2 /\ g_ln g = (o2 <? 0).
+Proof. exact vc_region_rows. Qed.
+Print Assumptions C08_region_rows.
+
+(* inside one line: exactly the span between cursor and target, smaller offset first; exclusive for
+   exclusive motions; one character longer for f F t T e E % unless the larger end is already at the
+   end of the line *)
+Theorem C08_region_same_row : forall b k r o1 o2 l, buf_wf b -> getl b r = Some l -> 0 <= o2 -> off_ok l (Z.min o1 o2) ->
+  let g := vc_region b k r o1 r o2 in
+  g_ln g = false /\ g_r1 g = r /\ g_r2 g = r /\ g_o1 g = Z.min o1 o2 /\
+  g_o2 g = if incl_key k && (Z.max o1 o2 <? slen l - 1) then ren_noeol (Some l) (Z.max o1 o2) + 1 else Z.max o1 o2.
+Proof. exact vc_region_same_row. Qed.
+Print Assumptions C08_region_same_row.
+
+(* ---------- C08_delete_yank_put ---------- *)
+(* character-wise inside one line: the register holds exactly the region's text, the line becomes
+   before ++ after, and putting that text back before offset o1 restores the buffer *)
+Theorem C08_delete_yank_put_chars : forall b R y r o1 o2 l, getl b r = Some l -> 0 <= o1 <= o2 -> o2 <= slen l - 1 ->
+  c_isupper y = false -> y <> 34%N ->
+  let g := mk_region r o1 r o2 false in
+  let '(b', R') := vi_delete b R y g in
+  reg_get R' y = Some (flat (sub_l l o1 o2), false) /\
+  getl b' r = Some (sub_l l 0 o1 ++ sub_l l o2 (-1)) /\
+  put_chars b' r o1 (sub_l l o1 o2) = b.
+Proof. exact delete_put_chars. Qed.
+Print Assumptions C08_delete_yank_put_chars.
+
+(* line-wise: the register holds the lines' text with the line-wise flag, the lines are removed,
+   and putting them back above row r1 restores the buffer *)
+Theorem C08_delete_yank_put_lines : forall b R y r1 r2, 0 <= r1 <= r2 -> r2 < blen b -> c_isupper y = false -> y <> 34%N ->
+  let g := mk_region r1 0 r2 0 true in
+  let ls := rows_between b r1 (r2 + 1) in
+  let '(b', R') := vi_delete b R y g in
+  reg_get R' y = Some (flat (lbuf_region b r1 0 r2 (-1)), true) /\
+  b' = firstn (Z.to_nat r1) b ++ skipn (Z.to_nat (r2 + 1)) b /\
+  put_lines b' r1 ls = b.
+Proof. exact delete_put_lines. Qed.
+Print Assumptions C08_delete_yank_put_lines.
+
+(* PARTIAL: the multi-line character-wise region (dw joining two lines), p as opposed to P, counts on
+   puts, and "u restores" (C04) are not covered by the two theorems above; they are explored by the
+   correspondence run only. *)
+
+(* ---------- C08_utf8 (PARTIAL: delete, yank and put only) ---------- *)
+(* on the character view every edit moves whole characters: delete and put keep every line a list of
+   encoded scalar values, and the text that reaches a register is valid UTF-8 (flat_valid, with
+   chars_cons of UcSegProps).  Missing: vi_case (ASCII-only case flip), vi_shift, vc_join,
+   vc_replace and insert mode are not modelled in Coq. *)
+Theorem C08_utf8_delete_partial : forall b R y g, buf_valid b -> buf_valid (fst (vi_delete b R y g)).
+Proof. exact vi_delete_valid. Qed.
+Print Assumptions C08_utf8_delete_partial.
+Theorem C08_utf8_put_partial : forall b r off txt, buf_valid b -> line_valid txt -> buf_valid (put_chars b r off txt).
+Proof. exact put_chars_valid. Qed.
+Print Assumptions C08_utf8_put_partial.
+Theorem C08_utf8_register_partial : forall cs, line_valid cs -> valid (flat cs).
+Proof. exact flat_valid. Qed.
+Print Assumptions C08_utf8_register_partial.
+Local Open Scope N_scope.
 
 Example C08_nonvacuous :
   let R := reg_put (reg_put (reg_put regs0 0 [97; 10] true) 97 [98] false) 65 [99; 10] false in
